@@ -72,7 +72,7 @@ func StrSeq(items ...string) *YSeq {
 
 // YPrintOpts: surface choices that never change the document's meaning.
 type YPrintOpts struct {
-	Indent     int                          // spaces per level (>=2)
+	Indent     int                           // spaces per level (>=2)
 	Flow       func(depth int, n YNode) bool // print this collection in flow style
 	Style      func(s YScalar) YStyle        // quoting style for string scalars that are safe in any style
 	Comment    func() string                 // "" or a comment text to put on its own line
